@@ -419,7 +419,7 @@ func (l *Lexer) addToken(kind TokenKind) {
 		Kind:   kind,
 		Lexeme: l.source[l.start:l.pos],
 		Line:   l.line,
-		Column: l.column - (l.pos - l.start),
+		Column: l.column - utf8.RuneCountInString(l.source[l.start:l.pos]),
 	})
 }
 
